@@ -1,6 +1,576 @@
 package main
 
-// MCTS at the level of single search iterations (model correspondence for property C04).
+// MCTS at the level of single search iterations (model correspondence for property C04, coq/Mcts.v).
 // Called at the end of runC04; emits CASE lines whose input starts with "MCTS ;".
+//
+// One case = one position x one configuration x one scripted random source:
+//   (B) the REAL MonteCarloAI.GetMove runs with Debug=5 (one log line per completed iteration) on a recording source; when
+//       the wanted number of iterations has been logged, a hook in the policy / evaluator sleeps until the deadline has passed,
+//       so the number of loop passes is known exactly (= the model's fuel) although the loop is bounded by the wall clock;
+//   (A) the same number of passes is then run statement by statement through the overlay (harness/overlay/ai--mcts__steps.go.txt:
+//       real descend / populate / rollout / update) on a second player with an identical source; the tree is dumped after every
+//       pass, and sort.Sort(bySims) is applied to a copy of the root's children (the model's sort oracle).
+//   (A) and (B) must have drawn the same random values and reported the same rollout values (class mcts-steps-diverge).
+//
+//   CASE MCTS ; <position> ; <place_win> ; <corners> ; <C> ; <MaxRollout> ; <EvalThreshold> ; <fuel> ; <Int31 stream> ; <sort oracle>
+//        | move=<returned move or PANIC> verdict=<OK|ERR|PANIC|-> children=<root's children in order>
+//        | <path>/<val>/<fnv64 of the tree dump> per pass ... ; final=<tree dump>
+// The direct oracle also judges the move of (B): legal by the independent rules oracle and by Position.Move.
+
+import (
+	"bytes"
+	"context"
+	"fmt"
+	"hash/fnv"
+	"log"
+	"math/rand"
+	"os"
+	"runtime"
+	"strconv"
+	"strings"
+	"sync"
+	"time"
+
+	"github.com/nelhage/taktician/ai/mcts"
+	"github.com/nelhage/taktician/tak"
+)
+
+// ---------- the recording source ----------
+
+// mctsSrc: math/rand's own generator, with every `hi`-th-or-so value replaced by the largest Int31 (exercises the rejection
+// loop of Int31n and the mask branch with all bits set) and every `lo`-th-or-so by 0; records Int31() = int32(Int63() >> 32).
+type mctsSrc struct {
+	inner  rand.Source
+	hi, lo int64
+	drawn  []int32
+}
+
+func (s *mctsSrc) Seed(int64) {}
+func (s *mctsSrc) Int63() int64 {
+	v := s.inner.Int63()
+	k := (v >> 8) & 0xffff
+	switch {
+	case s.hi > 0 && k%s.hi == 0:
+		v |= 0x7fffffff << 32
+	case s.lo > 0 && k%s.lo == 1:
+		v &= 0xffffffff
+	}
+	s.drawn = append(s.drawn, int32(v>>32))
+	return v
+}
+
+// ---------- log lines of the goroutine that runs GetMove ----------
+
+type mctsLogHook struct {
+	evals []string // "evaluate: [...] = v p=n" lines
+}
+
+var mctsLogHooks sync.Map // goroutine id -> *mctsLogHook
+
+func mctsGoid() int64 {
+	var b [64]byte
+	n := runtime.Stack(b[:], false)
+	f := strings.Fields(string(b[:n]))
+	if len(f) < 2 {
+		return -1
+	}
+	id, _ := strconv.ParseInt(f[1], 10, 64)
+	return id
+}
+
+type mctsLogWriter struct{}
+
+func (mctsLogWriter) Write(p []byte) (int, error) {
+	if i := bytes.Index(p, []byte("evaluate: ")); i >= 0 {
+		if h, ok := mctsLogHooks.Load(mctsGoid()); ok {
+			hk := h.(*mctsLogHook)
+			hk.evals = append(hk.evals, strings.TrimSpace(string(p[i:])))
+		}
+	}
+	return len(p), nil
+}
+
+// ---------- one case ----------
+
+type mctsCase struct {
+	p        *tak.Position
+	kind     string
+	placeWin bool
+	corners  bool
+	c        float64
+	maxRoll  int
+	evalThr  int64
+	want     int // iterations wanted (0 with limit 0: no iteration at all)
+	seed     int64
+	hi, lo   int64
+}
+
+func (k mctsCase) cfg(debug int, limit time.Duration) mcts.MCTSConfig {
+	pol := "uniform"
+	if k.placeWin {
+		pol = "place_win"
+	}
+	return mcts.MCTSConfig{Size: k.p.Size(), Debug: debug, Limit: limit, Seed: 1 + k.seed, C: k.c, MaxRollout: k.maxRoll,
+		EvalThreshold: k.evalThr, Policy: pol, ForceCorners: k.corners}
+}
+
+func (k mctsCase) src() *mctsSrc {
+	return &mctsSrc{inner: rand.NewSource(k.seed), hi: k.hi, lo: k.lo}
+}
+
+func (k mctsCase) desc() string {
+	cfg := tak.VerifCfg(k.p)
+	return fmt.Sprintf("mcts-steps kind=%s place_win=%d corners=%d C=%g maxrollout=%d evalthreshold=%d want=%d seed=%d hi=%d lo=%d cfg=%d:%d:%d:%d pos=%s",
+		k.kind, b2i(k.placeWin), b2i(k.corners), k.c, k.maxRoll, k.evalThr, k.want, k.seed, k.hi, k.lo,
+		cfg.Size, cfg.Pieces, cfg.Capstones, b2i(cfg.BlackWinsTies), enc(k.p))
+}
+
+type mctsOut struct {
+	lines []string
+	stats map[string]int64
+}
+
+func (o *mctsOut) stat(k string, n int64) { o.stats[k] += n }
+func (o *mctsOut) fail(class, input, did, want string) {
+	cl := strings.NewReplacer("|", "/", "\n", " ", "\r", " ")
+	o.lines = append(o.lines, fmt.Sprintf("ORACLE-FAIL %s | %s | %s | %s", class, cl.Replace(input), cl.Replace(did), cl.Replace(want)))
+	o.stat("oraclefail_"+class, 1)
+}
+
+func mctsFnv(s string) uint64 {
+	h := fnv.New64a()
+	h.Write([]byte(s))
+	return h.Sum64()
+}
+
+func mctsInts(xs []int) string {
+	if len(xs) == 0 {
+		return "-"
+	}
+	s := make([]string, len(xs))
+	for i, x := range xs {
+		s[i] = strconv.Itoa(x)
+	}
+	return strings.Join(s, ".")
+}
+
+// runReal: (B).  Returns the move / panic, the evaluate lines, the stream drawn, and the number of loop passes (-1: not known).
+func (k mctsCase) runReal(limit time.Duration) (m tak.Move, pan bool, msg string, evals []string, drawn []int32, fuel int) {
+	hook := &mctsLogHook{}
+	src := k.src()
+	blocked := false
+	var start time.Time
+	done := make(chan struct{})
+	go func() {
+		defer close(done)
+		id := mctsGoid()
+		mctsLogHooks.Store(id, hook)
+		defer mctsLogHooks.Delete(id)
+		pan, msg = safely(func() {
+			mc := mcts.NewMonteCarlo(k.cfg(5, limit))
+			mcts.VerifSetSource(mc, src)
+			mcts.VerifHook(mc, func() {
+				if !blocked && len(hook.evals) >= k.want {
+					blocked = true
+					if d := time.Until(start.Add(limit + 2*time.Millisecond)); d > 0 {
+						time.Sleep(d)
+					}
+					for time.Now().Before(start.Add(limit + time.Millisecond)) {
+					}
+				}
+			})
+			start = time.Now()
+			m = mc.GetMove(context.Background(), k.p)
+		})
+	}()
+	<-done
+	elapsed := time.Since(start)
+	n := len(hook.evals)
+	switch {
+	case k.corners && k.p.MoveNumber() < 2:
+		fuel = 0
+	case blocked:
+		fuel = n // the pass that was held completed after the deadline: the loop ended by the clock
+	case elapsed < limit-limit/8:
+		fuel = n + 1 // returned early: the loop was left by `break` in pass n+1
+	case limit == 0:
+		fuel = 0
+	default:
+		fuel = -1 // the deadline passed on its own (loaded machine): ended by the clock after n passes, or by break
+	}
+	return m, pan, msg, hook.evals, src.drawn, fuel
+}
+
+func (k mctsCase) run(o *mctsOut) {
+	p := k.p
+	desc := k.desc()
+	before := enc(p)
+	// (B) the real GetMove
+	limit := 25 * time.Millisecond
+	if k.want == 0 {
+		limit = 0
+	}
+	var m tak.Move
+	var pan bool
+	var msg string
+	var evals []string
+	var drawn []int32
+	fuel := -1
+	ambiguous := -1
+	for attempt := 0; attempt < 4; attempt++ {
+		m, pan, msg, evals, drawn, fuel = k.runReal(limit)
+		if fuel >= 0 {
+			break
+		}
+		// deadline passed on its own after len(evals) passes: decided below by the root's proven flag after that many passes
+		ambiguous = len(evals)
+		mc := mcts.NewMonteCarlo(k.cfg(0, time.Hour))
+		mcts.VerifSetSource(mc, k.src())
+		vt := mcts.VerifNewTree(p)
+		for i := 0; i < ambiguous; i++ {
+			vt.Iterate(mc)
+		}
+		if vt.RootProven() == 0 {
+			fuel = ambiguous
+			o.stat("mcts_steps_deadline_passed_early", 1)
+			break
+		}
+		o.stat("mcts_steps_retry_longer_limit", 1)
+		limit *= 3
+	}
+	if fuel < 0 {
+		o.stat("mcts_steps_skipped_undetermined_pass_count", 1)
+		return
+	}
+	if enc(p) != before {
+		o.fail("position-mutated", desc, "the searched position changed during GetMove", "the caller's position is left alone")
+		return
+	}
+	// direct oracle on the returned move
+	moveStr, verdict := "PANIC", "-"
+	switch {
+	case pan && k.want == 0 && !(k.corners && p.MoveNumber() < 2):
+		o.stat("mcts_steps_no_iteration_panic", 1) // Limit 0: outside the property (no playout); kept for the model's Panic branch
+	case pan:
+		o.fail("mcts-panic", desc, "panic: "+msg, "no crash")
+	default:
+		moveStr = encMove(m)
+		var err error
+		pan2, _ := safely(func() { _, err = p.Move(m) })
+		rules := false
+		safely(func() { rules = absOf(p).rulesMove(m) != nil })
+		switch {
+		case pan2:
+			verdict = "PANIC"
+		case err != nil:
+			verdict = "ERR"
+		default:
+			verdict = "OK"
+		}
+		if verdict != "OK" || !rules {
+			cls := "mcts-move-illegal"
+			if k.corners && p.MoveNumber() < 2 {
+				cls = "mcts-corner-illegal"
+			}
+			o.fail(cls, desc, fmt.Sprintf("GetMove returned %s: Position.Move says %s, rules oracle accepts=%v", moveStr, verdict, rules), "a legal move")
+		}
+	}
+	// (A) the same passes, statement by statement
+	var l2 []string
+	children, perm, final := "-", "-", "-"
+	mc := mcts.NewMonteCarlo(k.cfg(0, time.Hour))
+	mcCfg := mcts.VerifConfig(mc)
+	if !(k.corners && p.MoveNumber() < 2) {
+		src := k.src()
+		mcts.VerifSetSource(mc, src)
+		vt := mcts.VerifNewTree(p)
+		var spPan bool
+		var spMsg string
+		passes := 0
+		for i := 0; i < fuel; i++ {
+			var path []int
+			var brk bool
+			var val, npr int
+			if sc, all := vt.RootScored(); sc >= 2 {
+				o.stat("mcts_steps_passes_with_computed_scores_at_root", 1)
+				if all {
+					o.stat("mcts_steps_passes_decided_by_computed_scores_at_root", 1)
+				}
+			}
+			spPan, spMsg = safely(func() { path, brk, val, npr = vt.Iterate(mc) })
+			if spPan {
+				break
+			}
+			passes++
+			if brk {
+				l2 = append(l2, fmt.Sprintf("%s/break/%016x", mctsInts(path), mctsFnv(vt.Dump())))
+				o.stat("mcts_steps_break", 1)
+				break
+			}
+			l2 = append(l2, fmt.Sprintf("%s/%d/%016x", mctsInts(path), val, mctsFnv(vt.Dump())))
+			// the real loop's log line of this pass: "evaluate: [..] = val p=proven"
+			if i < len(evals) {
+				want := fmt.Sprintf("= %d p=%d", val, npr)
+				if !strings.HasSuffix(evals[i], want) {
+					o.fail("mcts-steps-diverge", desc, fmt.Sprintf("pass %d: the real loop logged %q, the stepped loop computed %q", i+1, evals[i], want),
+						"the stepped loop of the overlay repeats the loop of GetMove")
+					return
+				}
+			} else {
+				o.fail("mcts-steps-diverge", desc, fmt.Sprintf("pass %d of the stepped loop has no log line in the real run (%d lines)", i+1, len(evals)),
+					"the stepped loop of the overlay repeats the loop of GetMove")
+				return
+			}
+			if len(path) > 3 {
+				o.stat("mcts_steps_depth_ge4", 1)
+			}
+		}
+		if spPan {
+			if !pan {
+				o.fail("mcts-steps-diverge", desc, "the stepped loop panicked ("+spMsg+") but GetMove did not", "the stepped loop of the overlay repeats the loop of GetMove")
+				return
+			}
+			l2 = append(l2, "PANIC")
+		}
+		if len(src.drawn) > len(drawn) {
+			o.fail("mcts-steps-diverge", desc, fmt.Sprintf("the stepped loop drew %d random values, the real run only %d", len(src.drawn), len(drawn)),
+				"the stepped loop of the overlay repeats the loop of GetMove")
+			return
+		}
+		for i, v := range src.drawn {
+			if drawn[i] != v {
+				o.fail("mcts-steps-diverge", desc, fmt.Sprintf("random value %d differs between the real and the stepped run", i), "identical sources")
+				return
+			}
+		}
+		o.stat("mcts_steps_passes", int64(passes))
+		ch := vt.RootChildren()
+		children = encMoves(ch)
+		perm = mctsInts(vt.SortedOrder())
+		final = vt.Dump()
+		if len(ch) > 12 {
+			o.stat("mcts_steps_sort_more_than_12_children", 1)
+		}
+		if vt.RootProven() != 0 {
+			o.stat("mcts_steps_root_proven", 1)
+		}
+	} else {
+		o.stat("mcts_steps_corner_answers", 1)
+	}
+	ds := make([]string, len(drawn))
+	nhi := 0
+	for i, v := range drawn {
+		ds[i] = strconv.Itoa(int(v))
+		if v == 0x7fffffff {
+			nhi++
+		}
+	}
+	stream := "-"
+	if len(ds) > 0 {
+		stream = strings.Join(ds, ",")
+	}
+	o.stat("mcts_steps_cases", 1)
+	o.stat("mcts_steps_kind_"+k.kind, 1)
+	o.stat(fmt.Sprintf("mcts_steps_size%d", p.Size()), 1)
+	o.stat("mcts_steps_policy_placewin", int64(b2i(k.placeWin)))
+	o.stat("mcts_steps_corners", int64(b2i(k.corners)))
+	o.stat("mcts_steps_random_values", int64(len(drawn)))
+	o.stat("mcts_steps_random_values_max_int31", int64(nhi))
+	fb := fuel
+	if fb > 80 {
+		fb = 80
+	}
+	o.stat(fmt.Sprintf("mcts_steps_fuel_%02d_%02d", fb/10*10, fb/10*10+9), 1)
+	if ws, wc, bs, bc := tak.VerifReserves(p); (p.ToMove() == tak.White && ws == 0 && wc > 0) || (p.ToMove() == tak.Black && bs == 0 && bc > 0) {
+		o.stat("mcts_steps_mover_has_only_capstones", 1)
+	}
+	l2s := "-"
+	if len(l2) > 0 {
+		l2s = strings.Join(l2, " ")
+	}
+	o.lines = append(o.lines, fmt.Sprintf("CASE MCTS ; %s ; %d ; %d ; %s ; %d ; %d ; %d ; %s ; %s | move=%s verdict=%s children=%s | %s final=%s",
+		enc(p), b2i(k.placeWin), b2i(k.corners), strconv.FormatFloat(mcCfg.C, 'g', -1, 64), mcCfg.MaxRollout, mcCfg.EvalThreshold, fuel, stream, perm,
+		moveStr, verdict, children, l2s, final))
+}
+
+// ---------- positions ----------
+
+func mctsLive(p *tak.Position) bool {
+	over, _ := p.GameOver()
+	return !over
+}
+
+func mctsMoverOnlyCaps(p *tak.Position) bool {
+	ws, wc, bs, bc := tak.VerifReserves(p)
+	if p.ToMove() == tak.White {
+		return ws == 0 && wc > 0
+	}
+	return bs == 0 && bc > 0
+}
+
+func mctsGenPosition(r *rand.Rand, size int, kind string) *tak.Position {
+	for try := 0; try < 60; try++ {
+		var p *tak.Position
+		switch kind {
+		case "opening":
+			ps, _ := randomGame(r, randCfg(r, size), r.Intn(5), -1, false)
+			p = ps[len(ps)-1]
+		case "middle":
+			ps, _ := randomGame(r, randCfg(r, size), 4+r.Intn(4*size), -1, false)
+			for i := len(ps) - 1; i >= 0; i-- {
+				if mctsLive(ps[i]) {
+					p = ps[i]
+					break
+				}
+			}
+		case "nearterm":
+			ps, _ := randomGame(r, randCfg(r, size), 300, []int{4, 4, 0, 3}[r.Intn(4)], false)
+			if len(ps) < 5 || mctsLive(ps[len(ps)-1]) {
+				continue
+			}
+			p = ps[len(ps)-2-r.Intn(3)]
+		case "caponly":
+			cfg := tak.Config{Size: size, Pieces: 2 + r.Intn(5), Capstones: 1 + r.Intn(2), BlackWinsTies: r.Intn(4) == 0}
+			ps, _ := randomGame(r, cfg, 300, []int{4, 4, -1}[r.Intn(3)], false)
+			var cand []*tak.Position
+			for _, q := range ps {
+				if mctsMoverOnlyCaps(q) && mctsLive(q) {
+					cand = append(cand, q)
+				}
+			}
+			if len(cand) == 0 {
+				continue
+			}
+			p = cand[r.Intn(len(cand))]
+		}
+		if p != nil && mctsLive(p) {
+			return p
+		}
+	}
+	return nil
+}
+
+// ---------- the run ----------
+
 func runMctsSteps(c *ctx) {
+	if c.tier == "replay" {
+		return
+	}
+	r := c.r
+	n := 96
+	if c.tier == "thorough" {
+		n = 1200
+	}
+	if s := os.Getenv("VERIF_MCTS_STEPS"); s != "" {
+		n, _ = strconv.Atoi(s)
+	}
+	kinds := []string{"opening", "middle", "middle", "nearterm", "nearterm", "caponly"}
+	var cases []mctsCase
+	for j := 0; j < n; j++ {
+		size := 3 + j%4
+		kind := kinds[r.Intn(len(kinds))]
+		k := mctsCase{kind: kind, placeWin: r.Intn(2) == 0, corners: r.Intn(2) == 0, seed: 1 + r.Int63n(1<<40)}
+		if k.corners && r.Intn(3) == 0 {
+			k.kind = "opening"
+		}
+		k.p = mctsGenPosition(r, size, k.kind)
+		if k.p == nil {
+			continue
+		}
+		k.c = []float64{0, 0, 0.7, 1.4, 0.05, 3}[r.Intn(6)]
+		k.maxRoll = []int{0, 1, 2, 4, 8, 8, 20}[r.Intn(7)]
+		k.evalThr = []int64{0, 0, 1, 300, 100000}[r.Intn(5)]
+		switch x := r.Intn(10); {
+		case x < 4:
+			k.want = 1 + r.Intn(6)
+		case x < 8:
+			k.want = 5 + r.Intn(16)
+		default:
+			k.want = 20 + r.Intn(21)
+		}
+		if k.maxRoll == 0 && k.want > 12 { // 50-ply rollouts are slow in the extracted model
+			k.want = 1 + r.Intn(12)
+		}
+		if j%4 == 0 && r.Intn(2) == 0 {
+			// few legal moves and many passes: descend is decided by the computed (float) scores, ties between equal scores
+			k.kind = []string{"nearterm", "caponly", "middle"}[r.Intn(3)]
+			k.corners = false
+			if q := mctsGenPosition(r, 3, k.kind); q != nil {
+				k.p = q
+			}
+			k.want = 30 + r.Intn(50)
+			k.maxRoll = []int{1, 2, 4, 8}[r.Intn(4)]
+		}
+		if r.Intn(40) == 0 {
+			k.want = 0
+		}
+		switch r.Intn(3) {
+		case 0:
+			k.hi, k.lo = 7, 5
+		case 1:
+			k.hi, k.lo = 0, 3
+		}
+		cases = append(cases, k)
+	}
+	// corner forcing in the two opening plies: the empty board and a first stone in / off a corner
+	for size := 3; size <= 6; size++ {
+		for _, f := range [][2]int{{-1, -1}, {0, 0}, {size - 1, 0}, {size - 1, size - 1}, {1, 1}} {
+			p := tak.New(tak.Config{Size: size})
+			if f[0] >= 0 {
+				p, _ = p.Move(tak.Move{X: int8(f[0]), Y: int8(f[1]), Type: tak.PlaceFlat})
+			}
+			k := mctsCase{p: p, kind: "opening", placeWin: r.Intn(2) == 0, corners: true, seed: 1 + r.Int63n(1<<40), want: 1, maxRoll: 2}
+			if r.Intn(2) == 0 {
+				k.hi, k.lo = 5, 3
+			}
+			cases = append(cases, k)
+		}
+	}
+
+	prev := log.Writer()
+	log.SetOutput(mctsLogWriter{})
+	defer log.SetOutput(prev)
+	outs := make([]*mctsOut, len(cases))
+	var wg sync.WaitGroup
+	ch := make(chan int)
+	nw := runtime.NumCPU()
+	if nw > 12 {
+		nw = 12
+	}
+	for w := 0; w < nw; w++ {
+		wg.Add(1)
+		go func() {
+			defer wg.Done()
+			for i := range ch {
+				o := &mctsOut{stats: map[string]int64{}}
+				if pan, msg := safely(func() { cases[i].run(o) }); pan {
+					o.fail("harness-panic", cases[i].desc(), "the harness itself panicked: "+msg, "-")
+				}
+				outs[i] = o
+			}
+		}()
+	}
+	for i := range cases {
+		ch <- i
+	}
+	close(ch)
+	wg.Wait()
+	samples := 0
+	for i, o := range outs {
+		for _, l := range o.lines {
+			if strings.HasPrefix(l, "CASE ") {
+				c.stat("cases", 1)
+				c.stat("cases_mcts_steps", 1)
+				if samples < 2 && i%7 == 3 {
+					samples++
+					f := strings.SplitN(l, " | ", 3)
+					c.printf("SAMPLE mcts-steps %s -> %s\n", cases[i].desc(), f[1])
+				}
+			}
+			c.printf("%s\n", l)
+		}
+		for k, v := range o.stats {
+			c.stat(k, v)
+		}
+	}
 }
